@@ -143,6 +143,13 @@ func (m *ModuleCompress) compressHandler(req *bfe_basic.Request, res *bfe_http.R
 		return bfe_module.BfeHandlerGoOn
 	}
 
+	// a response without body must stay without body: the compressor would
+	// still emit its header and trailer bytes after the response head
+	if req.HttpRequest.Method == "HEAD" || res.StatusCode/100 == 1 ||
+		res.StatusCode == bfe_http.StatusNoContent || res.StatusCode == bfe_http.StatusNotModified {
+		return bfe_module.BfeHandlerGoOn
+	}
+
 	rule, err := m.getCompressRule(req)
 	if err != nil {
 		return bfe_module.BfeHandlerGoOn
